@@ -106,6 +106,18 @@ let thr_check line = let (k, c, p, bin, i) = thr_parts line in
   | Some s -> verdict (throughput_sb k c p bin (Ok s)) "zero/inf/truncated-scaled-value-rule"
   | None -> verdict false ("outcome:" ^ i)
 
+let thrw_parts line = let (c, i) = split_sb line in
+  match toks c with
+  | [k; cnt; p; bin; pr; w] -> (n_of_string k, n_of_string cnt, n_of_string p, bin = "1", opt_n pr, opt_n w, i)
+  | _ -> failwith "thrw"
+
+let thrwm line = let (k, c, p, bin, pr, w, i) = thrw_parts line in
+  admissible (display_throughput_with k c p bin pr w) (throughput_with_sb k c p bin pr w) i
+let thrw_check line = let (k, c, p, bin, pr, w, i) = thrw_parts line in
+  match parse_ok i with
+  | Some s -> verdict (throughput_with_sb k c p bin pr w (Ok s)) "not-the-rule-for-precision-significant-figures-padded-to-width"
+  | None -> verdict false ("outcome:" ^ i)
+
 (* exact model, for inspection: same case lines without the implementation's answer *)
 let thr_exact line = match toks line with
   | [k; cnt; p; bin] -> res_s (display_throughput (n_of_string k) (n_of_string cnt) (n_of_string p) (bin = "1"))
@@ -250,6 +262,8 @@ let dispatch mode line =
   | "thr" -> thrm line
   | "thr.sb" -> thr_check line
   | "thr.exact" -> thr_exact line
+  | "thrw" -> thrwm line
+  | "thrw.sb" -> thrw_check line
   | "e2e" -> e2em line
   | "e2e.sb" -> e2e_check line
   | _ -> failwith ("unknown mode " ^ mode)
